@@ -272,6 +272,8 @@ def from_sexpr(prog):
             # Not(Var s) ↦ Literal(map[s], false); otherwise Not(helper(inner))
             v = inner["Var"]
             e1 = None
+            if not (isinstance(strip(v), tuple) and strip(v)[0] == "agg"):
+                v = canon.inline_top(prog, te, v)      # the literal may be built by a private helper
             ok = (isinstance(v, tuple) and v[0] == "agg" and v[3] == "Literal" and len(v[4]) == 2
                   and match(K(0), v[4][1]) is None)
             if not ok:
@@ -593,8 +595,20 @@ def dimacs_sign(prog):
             continue
         gt, x = found[0]
         arms = gamma_arms(gt, x) or {}
+
+        def arm_of(v):
+            if v in arms:
+                return arms[v]
+            for k_ in arms:                      # `matches!(sign, Sign::Pos)`: one named arm and a catch-all
+                if isinstance(k_, tuple) and k_ and k_[0] == "rest" and (len(k_) < 2 or v in k_[1]):
+                    return arms[k_]
+            return None
+        an, ap = arm_of("Neg"), arm_of("Pos")
         e = None
-        if not (match(K(0), arms.get("Neg", ())) is None and match(K(1), arms.get("Pos", ())) is None):
+        if an is None or ap is None:
+            out.append(inst("DP", fn.npath + ":sign", UNDECIDED, fn, None, "? the match on the literal's sign has no arm for Neg or for Pos: %s" % show(x)[:80]))
+            continue
+        if not (match(K(0), an) is None and match(K(1), ap) is None):
             e = "Sign::Neg must map to false and Sign::Pos to true, found %s" % show(x)
         out.append(inst("DP", fn.npath + ":sign", VIOLATION if e else OK, fn, None, e or "Neg ↦ false, Pos ↦ true"))
     # the printer is the inverse of the parser: a negative literal gets the minus sign, the number is label + 1
